@@ -7,6 +7,7 @@ import (
 	"fmt"
 	"reflect"
 	"regexp"
+	"runtime"
 	"strings"
 	"sync"
 	"testing"
@@ -34,7 +35,7 @@ type C17Case struct {
 	Seq bool       `json:"seq"`
 }
 
-var c17OpKinds = []string{"authn-doc", "authn-str", "logout-req", "logout-resp", "auth-url", "auth-url-redirect", "logout-url", "auth-post", "metadata", "metadata-slo",
+var c17OpKinds = []string{"authn-doc", "authn-str", "logout-req", "logout-resp", "auth-url", "auth-url-redirect", "logout-url", "auth-post", "auth-post-doc", "logout-post", "logout-resp-post", "metadata", "metadata-slo",
 	"validate", "retrieve", "logout-validate-req", "logout-validate-resp", "decode-base", "decode-logout", "signing-cert", "sign-el"}
 
 var c17InputsOnce sync.Once
@@ -158,8 +159,43 @@ func resultString(v interface{}, err error) string {
 	return string(b)
 }
 
+// held keeps raw results that a caller may still be holding while later calls run; they must not change.
+type held struct {
+	what string
+	b    []byte
+	snap string
+}
+
+type holder struct {
+	mu   sync.Mutex
+	list []held
+}
+
+func (hd *holder) keep(what string, b []byte) {
+	if hd == nil {
+		return
+	}
+	hd.mu.Lock()
+	hd.list = append(hd.list, held{what, b, string(b)})
+	hd.mu.Unlock()
+}
+
+// changed reports the first held result that no longer equals its snapshot.
+func (hd *holder) changed() string {
+	hd.mu.Lock()
+	defer hd.mu.Unlock()
+	for _, x := range hd.list {
+		if string(x.b) != x.snap {
+			return x.what
+		}
+	}
+	return ""
+}
+
 // run executes one operation and returns a canonical rendering of its result.
-func (op C17Op) run(sp *saml2.SAMLServiceProvider) string {
+func (op C17Op) run(sp *saml2.SAMLServiceProvider) string { return op.runHold(sp, nil) }
+
+func (op C17Op) runHold(sp *saml2.SAMLServiceProvider, hd *holder) string {
 	in := c17Pool()[op.Input%len(c17Pool())]
 	docStr := func(d *etree.Document, err error) string {
 		if err != nil {
@@ -212,6 +248,35 @@ func (op C17Op) run(sp *saml2.SAMLServiceProvider) string {
 		if err != nil {
 			return "error: " + err.Error()
 		}
+		hd.keep(op.Kind, b)
+		return blankPost(b)
+	case "auth-post-doc", "logout-post", "logout-resp-post":
+		var d *etree.Document
+		var err error
+		switch op.Kind {
+		case "auth-post-doc":
+			d, err = sp.BuildAuthRequestDocumentNoSig()
+		case "logout-post":
+			d, err = sp.BuildLogoutRequestDocumentNoSig("user:"+op.Arg, "s")
+		default:
+			d, err = sp.BuildLogoutResponseDocumentNoSig(saml2.StatusCodeSuccess, "req:"+op.Arg)
+		}
+		if err != nil {
+			return "error: " + err.Error()
+		}
+		var b []byte
+		switch op.Kind {
+		case "auth-post-doc":
+			b, err = sp.BuildAuthBodyPostFromDocument(op.Arg, d)
+		case "logout-post":
+			b, err = sp.BuildLogoutBodyPostFromDocument(op.Arg, d)
+		default:
+			b, err = sp.BuildLogoutResponseBodyPostFromDocument(op.Arg, d)
+		}
+		if err != nil {
+			return "error: " + err.Error()
+		}
+		hd.keep(op.Kind, b)
 		return blankPost(b)
 	case "metadata":
 		md, err := sp.Metadata()
@@ -343,9 +408,14 @@ func checkC17Seq(c C17Case) h.Outcome {
 	shared := c.SP.Build()
 	before := snapshot(shared)
 	pool := append([]string{}, c17Pool()...)
+	hd := &holder{}
 	for i, op := range c.Ops[0] {
 		o.Classes = append(o.Classes, "op:"+op.Kind)
-		got := op.run(shared)
+		got := op.runHold(shared, hd)
+		if w := hd.changed(); w != "" {
+			o.Violation = h.V("earlier-result-modified/"+w, "step %d (%+v): a result returned earlier by %s was modified by a later call", i, op, w)
+			return o
+		}
 		want := op.run(c.SP.Build())
 		if got != want {
 			o.Violation = h.V("history-dependent-result/"+op.Kind, "step %d (%+v) on a used SP gives a different result than on a fresh identical SP:\n used: %.400s\nfresh: %.400s", i, op, got, want)
@@ -394,6 +464,7 @@ func checkC17Conc(c C17Case) h.Outcome {
 	shared := c.SP.Build()
 	before := snapshot(shared)
 	got := make([][]string, len(c.Ops))
+	hd := &holder{}
 	start := make(chan struct{})
 	var wg sync.WaitGroup
 	for g, ops := range c.Ops {
@@ -403,10 +474,11 @@ func checkC17Conc(c C17Case) h.Outcome {
 			<-start
 			for _, op := range ops {
 				var s string
-				if pv := h.Guard(func() { s = op.run(shared) }); pv != nil {
+				if pv := h.Guard(func() { s = op.runHold(shared, hd) }); pv != nil {
 					s = "PANIC: " + pv.Detail
 				}
 				got[g] = append(got[g], s)
+				runtime.Gosched()
 			}
 		}(g, ops)
 	}
@@ -424,6 +496,10 @@ func checkC17Conc(c C17Case) h.Outcome {
 			}
 		}
 	}
+	if w := hd.changed(); w != "" {
+		o.Violation = h.V("earlier-result-modified/"+w, "a byte slice returned by %s changed while other goroutines kept calling the SP (all operation lists: %+v)", w, c.Ops)
+		return o
+	}
 	if after := snapshot(shared); after != before {
 		o.Violation = h.V("configuration-modified/concurrent", "configuration changed under concurrent use")
 	}
@@ -440,7 +516,7 @@ func TestC17_Replay(t *testing.T) {
 
 // TestC17_GridFirstUse: every signing operation raced against every other as the very first use of a fresh SP.
 func TestC17_GridFirstUse(t *testing.T) {
-	signing := []string{"authn-doc", "authn-str", "logout-req", "logout-resp", "auth-url", "auth-url-redirect", "logout-url", "auth-post", "sign-el", "metadata", "validate"}
+	signing := []string{"authn-doc", "authn-str", "logout-req", "logout-resp", "auth-url", "auth-url-redirect", "logout-url", "auth-post", "logout-post", "sign-el", "metadata", "validate"}
 	var cases []C17Case
 	variants := 2
 	if h.Thorough() {
